@@ -27,6 +27,10 @@ def rand_single(rng, m, kmax=3):
         p = int(rng.integers(0, m - 1))
         p = p if p < r else p + 1
         out.append([r, p, float(rng.uniform(0.1, 3.0)) if rng.random() < 0.7 else float(10 ** rng.uniform(-4, 3))])
+    if out and rng.random() < 0.08:
+        # a null reaction (product = reactant: catalysed exchange that leaves the state unchanged) with a rate many orders of magnitude
+        # above the others: it contributes exactly nothing to the generator
+        out.append([out[0][0], out[0][0], float(10 ** rng.uniform(6, 12))])
     return out
 
 
@@ -43,6 +47,8 @@ def rand_two(rng, m1, m2, kmax=3):
             else:
                 continue
         out.append([r1, p1, r2, p2, float(rng.uniform(0.1, 3.0)) if rng.random() < 0.7 else float(10 ** rng.uniform(-4, 3))])
+    if out and rng.random() < 0.08:  # a null two-cell reaction with a huge rate (see rand_single)
+        out.append([out[0][0], out[0][0], out[0][2], out[0][2], float(10 ** rng.uniform(6, 12))])
     return out
 
 
@@ -161,20 +167,32 @@ def w_slim_hom(ctx, rng, idx):
 def w_ulam(ctx, rng, idx):
     k = 2 + idx % 2
     states = [int(rng.integers(1, 8 if k == 2 else 5)) for _ in range(k)]
+    fine = rng.random() < 0.06
+    if fine:
+        # a fine grid in one direction (256-420 boxes, more than a byte / a 16-bit product of two box numbers can hold)
+        states = [1 + int(rng.integers(0, 2)) for _ in range(k)]
+        states[int(rng.choice([0, k - 1]))] = int(rng.integers(256, 421))
     n = int(np.prod(states))
     sim = int(rng.integers(1, 6))
     cols = []
-    for box in np.ndindex(*states):
+    boxes = list(np.ndindex(*states))
+    if fine:
+        # (the operator has one rank per distinct (source, target) pair of a direction: a few dozen sampled boxes - the highest-numbered ones
+        # among them - with local moves keep it at tens of megabytes)
+        far = rng.random() < 0.5 and max(states) <= 300  # local moves, or jumps to arbitrary boxes from many sources (several hundred distinct pairs)
+        pick = sorted(set(int(j) for j in rng.choice(len(boxes), size=min(200, len(boxes) - 2) if far else 30, replace=False)) | {len(boxes) - 1, len(boxes) - 2})
+        boxes = [boxes[j] for j in pick]
+    for box in boxes:
         u = rng.random()
         cnt = 0 if u < 0.15 else (int(rng.integers(1, sim + 1)) if u < 0.3 else sim)  # unsampled / partly / fully sampled boxes
         for _ in range(cnt):
-            dst = [int(rng.integers(0, s)) for s in states]
+            dst = [int(rng.integers(0, s)) for s in states] if (not fine or far) else [int(np.clip(b + rng.integers(-2, 3), 0, s - 1)) for b, s in zip(box, states)]
             cols.append([b + 1 for b in box] + [t + 1 for t in dst])
     if not cols:
         cols.append([1] * (2 * k))
     tr = np.array(cols, dtype=int).T
     tr = tr[:, rng.permutation(tr.shape[1])]
-    tr = tr.astype([int, np.uint8, np.int32, np.int16, np.uint16][int(rng.integers(0, 5))])  # (the shipped tables are uint8)
+    tr = tr.astype([int, np.uint8, np.int32, np.int16, np.uint16][int(rng.integers(0, 5))] if max(states) <= 100 else [int, np.int32, np.int16, np.uint16][int(rng.integers(0, 4))])  # (the shipped tables are uint8)
     ctx.describe({'op': 'ulam_%dd' % k, 'states': states, 'simulations': sim, 'transitions': int(tr.shape[1])})
     fn = ulam.ulam_2d if k == 2 else ulam.ulam_3d
     if rng.random() < 0.3:  # the table in another memory layout; grid sizes as tuple / integer array; NumPy integer simulation count
